@@ -102,6 +102,8 @@ struct St<W> {
     words: Vec<W>,
     width: usize,
     len: usize,
+    /// capacity of the backing Vec: part of the state the code branches on (see e2_bitvec)
+    cap: usize,
     model: Vec<W>,
 }
 
@@ -133,7 +135,9 @@ fn mask<W: WX>(w: usize) -> W {
 }
 
 fn real<W: WX>(s: &St<W>) -> BitFieldVec<W> {
-    unsafe { BitFieldVec::from_raw_parts(s.words.clone(), s.width, s.len) }
+    let mut w = Vec::with_capacity(s.cap.max(s.words.len()));
+    w.extend_from_slice(&s.words);
+    unsafe { BitFieldVec::from_raw_parts(w, s.width, s.len) }
 }
 
 /// first index whose element crosses a word boundary (or BITS/w when none does)
@@ -623,7 +627,8 @@ fn step<W: WX>(prop: &str, s: &St<W>, op: &Op<W>, viol: &mut Vec<Viol>) -> Optio
     if w.len() < s.words.len() && !matches!(op, Op::BoxedSet(..) | Op::AtomicBoxSet(..)) {
         viol.push((format!("{prop}|{}|storage-shrunk", site(op)), format!("{} -> {} words", s.words.len(), w.len())));
     }
-    Some(St { words: w, width: s.width, len: l, model })
+    let cap = w.capacity();
+    Some(St { words: w, width: s.width, len: l, cap, model })
 }
 
 fn pattern<W: WX>(w: usize, n: usize, salt: u64) -> Vec<W> {
@@ -636,7 +641,8 @@ fn seeds<W: WX>(prop: &str, w: usize, thorough: bool) -> Vec<(String, St<W>)> {
     let mut v = vec![];
     let mk = |b: BitFieldVec<W>, model: Vec<W>| {
         let (words, width, len) = b.into_raw_parts();
-        St { words, width, len, model }
+        let cap = words.capacity();
+        St { words, width, len, cap, model }
     };
     if prop == "C05" {
         let mut lens = vec![0, k.saturating_sub(1), k, k + 1];
@@ -720,7 +726,7 @@ fn seeds<W: WX>(prop: &str, w: usize, thorough: bool) -> Vec<(String, St<W>)> {
                     if spare == 0 && bits % W::BITS == 0 && used_words > 0 && g > 0 {
                         continue;
                     }
-                    v.push((format!("from_raw_parts(width={w}, len={n}, spare_words={spare}, garbage_kind={g})"), St { words: ws, width: w, len: n, model: p.clone() }));
+                    v.push((format!("from_raw_parts(width={w}, len={n}, spare_words={spare}, garbage_kind={g})"), St { cap: ws.capacity(), words: ws, width: w, len: n, model: p.clone() }));
                 }
             }
         }
@@ -775,7 +781,7 @@ fn run<W: WX>(ctx: &mut Ctx, prop: &str, widths: &[usize], depth: u32) {
                     start,
                     depth - 1,
                     2_000_000,
-                    |s: &St<W>| (s.words.clone(), s.len),
+                    |s: &St<W>| (s.words.clone(), s.len, s.cap),
                     ops::<W>,
                     move |s, o, v| step(&p, s, o, v),
                     move |s, v| observe(&p2, s, v),
